@@ -91,6 +91,10 @@ def masked_dump(src):
         if isinstance(node, ast.Constant):
             node.value = 0
             node.kind = None
+        elif isinstance(node, ast.JoinedStr):
+            # the literal parts of an f-string are constants; Python's parser drops an empty one and merges adjacent
+            # ones, so their number is a property of the constants' *values*, not of the structure
+            node.values = [v for v in node.values if not isinstance(v, ast.Constant)]
     return ast.dump(tree)
 
 
